@@ -99,6 +99,79 @@ func (c *fnCtx) resolveCallee(cc *ssa.CallCommon) calleeInfo {
 }
 
 func (c *fnCtx) execCall(st *State, in ssa.Instruction, cc *ssa.CallCommon, res ssa.Value) {
+	// "callback f preserves e": evaluate e before and after a call of the parameter f
+	type kept struct{ text, pre string }
+	var keeps []kept
+	if c.con != nil && len(c.con.Callbacks) > 0 {
+		if p, ok := cc.Value.(*ssa.Parameter); ok {
+			for _, cl := range c.con.Callbacks {
+				fs := strings.SplitN(cl.Text, " preserves ", 2)
+				if len(fs) != 2 || strings.TrimSpace(fs[0]) != p.Name() {
+					continue
+				}
+				env := c.newEnvAt(st, in.Block())
+				env.atEnd, env.upTo = true, in
+				v, err := env.evalText(strings.TrimSpace(fs[1]))
+				if err != nil {
+					c.abort("%s: callback: %v", cl.Pos, err)
+				}
+				keeps = append(keeps, kept{strings.TrimSpace(fs[1]), c.nameVal(v, "cbpre").S})
+			}
+		}
+	}
+	c.execCall1(st, in, cc, res)
+	for _, k := range keeps {
+		env := c.newEnvAt(st, in.Block())
+		env.atEnd, env.upTo = true, in
+		v, err := env.evalText(k.text)
+		if err == nil {
+			c.assume(st, sEq(v.S, k.pre))
+			c.assumedUsed["callback parameter preserves "+k.text+" (assumed of the caller-supplied function)"] = true
+		}
+	}
+	c.panicExit(st, in, cc)
+}
+
+// panicExit: a call of a function value (a callback such as a push iterator's yield) may panic.
+// The `onpanic` clauses of the enclosing contract must then hold once the deferred calls
+// registered so far have run -- this is what "a panic leaves the lock released" means.
+func (c *fnCtx) panicExit(st *State, in ssa.Instruction, cc *ssa.CallCommon) {
+	if c.con == nil || len(c.con.OnPanic) == 0 || c.inPanicExit {
+		return
+	}
+	if _, isB := cc.Value.(*ssa.Builtin); isB || cc.IsInvoke() {
+		return
+	}
+	switch cc.Value.(type) {
+	case *ssa.Function, *ssa.MakeClosure:
+		return // only calls through function values
+	}
+	if _, isDefer := in.(*ssa.Defer); isDefer {
+		return
+	}
+	c.inPanicExit = true
+	defer func() { c.inPanicExit = false }()
+	ps := st.clone()
+	ps.defers = append([]deferred(nil), st.defers...)
+	c.runDefers(ps, in.Pos())
+	for _, cl := range c.con.OnPanic {
+		env := c.newEnvAt(ps, in.Block())
+		env.atEnd, env.upTo = true, in
+		t, err := env.evalBool(cl.Text)
+		if err != nil {
+			c.abort("%s: onpanic: %v", cl.Pos, err)
+		}
+		kind := "panic-exit"
+		if cl.Label != "" {
+			kind += ":" + cl.Label
+		}
+		o := &Obligation{Name: c.oblName(kind), Fn: c.fnName, Kind: "panic-exit", Props: c.propsFor(cl.Props), Clause: cl.Text,
+			Pos: c.posStr(in.Pos()), Backend: "smt", declLen: c.sb.Len(), cur: ps.cur, goal: t}
+		c.obls = append(c.obls, o)
+	}
+}
+
+func (c *fnCtx) execCall1(st *State, in ssa.Instruction, cc *ssa.CallCommon, res ssa.Value) {
 	setRes := func(v SymVal) {
 		if res != nil {
 			c.set(res, v)
@@ -463,6 +536,25 @@ func (c *fnCtx) applyContract(st *State, ci calleeInfo, args []SymVal, rt types.
 		}
 		if len(args) > 0 {
 			env.vars["self"] = args[0]
+		}
+		// the captured variables of a closure callee are bound to what the closure was made with
+		if ci.fn != nil && len(ci.bindings) == len(ci.fn.FreeVars) {
+			for i, fv := range ci.fn.FreeVars {
+				if _, clash := env.vars[fv.Name()]; !clash {
+					bv := c.val(pre, ci.bindings[i])
+					if pt, ok := fv.Type().Underlying().(*types.Pointer); ok && bv.K == KRef {
+						_, isAlloc := ci.bindings[i].(*ssa.Alloc)
+						if pfv, isFV := ci.bindings[i].(*ssa.FreeVar); isFV && c.capturedByRef(pfv) {
+							isAlloc = true
+						}
+						if isAlloc {
+							// captured by reference: the name denotes the variable's current value
+							bv = c.loadLocs(env.st, c.leafLocs(bv.S, pt.Elem()), pt.Elem())
+						}
+					}
+					env.vars[fv.Name()] = bv
+				}
+			}
 		}
 		for i, n := range con.Aliases {
 			if i < len(args) {
